@@ -46,11 +46,14 @@ def vdec(l, i=0):
     raise ValueError(l[i:i + 5])
 
 
+NONE = -777777        # stands for a None leaf in the model's integer vocabulary
+
+
 def to_py(v):
     """generator value -> Python object handed to the implementation"""
     from cpppo import dotdict
     if isinstance(v, int):
-        return v
+        return None if v == NONE else v
     if isinstance(v, list):
         return [to_py(e) for e in v]
     tag, d = v
@@ -65,6 +68,8 @@ def to_py(v):
 def canon(o):
     """Python object -> comparable structure in the model's vocabulary"""
     from cpppo.dotdict import dotdict_base
+    if o is None:
+        return NONE
     if isinstance(o, bool) or not isinstance(o, (int, list, dict)):
         return ('other', repr(o))
     if isinstance(o, int):
@@ -83,7 +88,7 @@ NAMES = ['a', 'b', 'c', 'ab', 'x1', 'l', 'm', 'keys', 'get', '__x', 'items', 'n_
 def gen_value(rng, depth=2):
     k = rng.random()
     if k < 0.45 or depth == 0:
-        return rng.randint(-5, 99)
+        return NONE if rng.random() < 0.12 else rng.randint(-5, 99)      # a leaf may hold None: it is in the tree all the same
     if k < 0.55:
         return [rng.randint(0, 9) for _ in range(rng.randint(0, 3))]
     if k < 0.7:
@@ -274,7 +279,7 @@ def spec_check(ops):
                         return n, 'plain dict assigned at %r did not become an addressable level (lookup returns %s)' % (k, type(d[k]).__name__)
                 if simple:
                     got = d[k]
-                    if isinstance(op[2], int) and got != op[2]:
+                    if isinstance(op[2], int) and canon(got) != op[2]:
                         return n, 'after d[%r] = %r lookup returns %r' % (k, op[2], got)
                     if k not in d:
                         return n, 'after assignment %r not in tree' % (k,)
